@@ -218,3 +218,23 @@ PROPS["C18"] = {
         lane("TestArbitrary", "arbitrary", 1500, 6000, shards=16),
     ],
 }
+
+PROPS["C07"] = {
+    "pkg": "c07",
+    "level": "exploration",
+    "technique": "complete isolation matrix (field type x rule x presence x container, each alone in a file) + property-based generation of whole bundles (rapid) + line/word mutation of valid sources; acceptance and totality/positioned-error oracles",
+    "level_text": ("(b) acceptance: every bundle from the model-first j5s generator, and every cell of a complete matrix {field type/format} x {each rule, list rule, "
+                   "ext attribute} x {none,!,?} x {plain,array,map} placed alone in a file (plus each kind of service, topic and entity alone), must compile and link; "
+                   "(a) totality: random bytes, generic BCL text and 1-3 line/word mutations of generated valid files go through CompilePackage, LintFile and "
+                   "LintAll: no panic, no hang (60 s), and a failure carries at least one position which lies inside the offending file."),
+    "level_note": "The matrix is complete over the rule set the generator knows; float rules are excluded (the compiler rejects them with a deliberate 'not implemented' diagnostic).",
+    "rule": ("accept: j5sgen.Draw(DefaultOpts) bundles (1-2 packages x 1-2 files, inline types to depth 3, imports, services, topics); matrix: enumerated; "
+             "garbage: bytes / bclgen text / mutated generated file. Non-trivial: every accept and matrix case; garbage inputs that are not blank. Distinct by hash of the sources."),
+    "assumptions": ["'inside the documented language' = what README and internal/j5s/README describe and the repository's own fixtures use; float rules are outside it"],
+    "lanes": [
+        lane("TestMatrix", "matrix", 0, 0, norapid=True, timeout_quick=900),
+        lane("TestAccept", "accept", 400, 2500, shards=16),
+        lane("TestGarbage", "garbage", 1500, 8000, shards=16, must_classes=["kind:mutated", "kind:bcl", "kind:bytes"]),
+        lane("TestSemantic", "semantic", 400, 2500, shards=16, must_classes=["semantic:cross-file-cycle", "semantic:unknown-type", "semantic:required-and-optional"]),
+    ],
+}
